@@ -1,0 +1,18 @@
+//go:build verif
+
+package http
+
+import "net/http"
+
+// Exports for the verification harness in /verif (build tag "verif" only).
+
+// VerifRouteData exposes the data route handler (Server.routeData) without the
+// validation wrapper, so that the harness can mount it on an httptest server.
+func (s *Server) VerifRouteData(w http.ResponseWriter, r *http.Request) {
+	s.routeData(w, r)
+}
+
+// VerifRouteDataRecovery exposes the data-recovery route handler.
+func (s *Server) VerifRouteDataRecovery(w http.ResponseWriter, r *http.Request) {
+	s.routeDataRecovery(w, r)
+}
